@@ -35,7 +35,8 @@ def rolling_diff(workdir, lmax, nseed, seed):
             nasm("rolling_hash/rolling_hash2_until_04.asm", os.path.join(workdir, "u04.o")),
             nasm("rolling_hash/rolling_hash2_multibinary.asm", os.path.join(workdir, "mb.o"))]
     exe = os.path.join(workdir, "roll_diff")
-    r = subprocess.run(["gcc", "-O1", os.path.join(VERIF, "native", "roll_diff.c")] + objs + ["-o", exe], capture_output=True, text=True)
+    r = subprocess.run(["gcc", "-O1", "-I" + os.path.join(REPO, "include"), os.path.join(VERIF, "native", "roll_diff.c")] + objs + ["-o", exe],
+                       capture_output=True, text=True)
     if r.returncode:
         raise RuntimeError("link failed: " + r.stderr[-300:])
     t0 = time.time()
